@@ -6,13 +6,21 @@ for l in open('/verif/properties.jsonl'):
     p = json.loads(l)
     if p['id'] == pid:
         break
+TS = pid in ("C14", "C15", "C16", "C17")
+TSNOTE = ("Note lib/upipe-ts and lib/upipe-framers are NOT built or tested by the suite (the external biTStream header library is missing), so changes there "
+          "trivially pass the tests. A stand-in for those headers is available at /tmp/bitstream-shim (add -I/tmp/bitstream-shim; see /tmp/bitstream-shim/README.md; "
+          "harnesses linking upipe_ts_encaps.c also need /tmp/bitstream-shim/stubs/upipe_ts_mux_str.c): compile the lib/upipe-ts/*.c or lib/upipe-framers/*.c files you need "
+          "directly together with your demo.c, e.g. gcc -I/tmp/bitstream-shim -I" + d + "/include -I" + d + " demo.c " + d + "/lib/upipe-ts/upipe_ts_decaps.c ... " + d + "/lib/upipe/.libs/libupipe.a -lpthread -lm. "
+          "The repository's own tests/upipe_ts_*_test.c and tests/upipe_h264_framer_test.c show how to drive these pipes."
+          if TS else
+          "Note lib/upipe-ts and lib/upipe-framers are NOT built or tested by the suite (an external header library is missing): do not put your changes there.")
 print(f"""You are helping evaluate how well a (separately built, hidden from you) verification effort detects regressions in the Upipe C multimedia framework. Your job is to act as the adversary: introduce realistic, subtle bugs.
 
 Work ONLY inside the scratch git worktree {d} (a worktree of the repository at /repo). Never modify /repo itself. Never read or write anything under /verif. The sandbox has no network.
 
 Setup (run first): 
   git -C /repo worktree add --detach {d} HEAD && rsync -a --exclude .git /repo/ {d}/ && cd {d} && ./configure >/dev/null 2>&1 && make clean >/dev/null 2>&1 && make -j8 >/dev/null 2>&1
-The existing test suite is `make check -j8` in {d} (about 1-2 minutes). On the unmodified tree it gives 82 PASS and 1 FAIL (tests/upipe_m3u_reader_test.sh always fails; ignore it). Note lib/upipe-ts and lib/upipe-framers are NOT built or tested by the suite (an external header library is missing), so changes there trivially "pass the tests".
+The existing test suite is `make check -j8` in {d} (about 1-2 minutes). On the unmodified tree it gives 82 PASS and 1 FAIL (tests/upipe_m3u_reader_test.sh always fails; ignore it). {TSNOTE}
 
 The semantic property to break:
   Title: {p['title']}
